@@ -191,7 +191,7 @@ func genC10(r *sim.Rng, tier string, idx int) *GCase {
 
 // planList enumerates the kill and fault points of a run whose fault-free
 // execution performed the given mutating operations.
-func planList(kinds []string, armedMuts []int, armedReads int, inPath string, inLen int, seed uint64) []simos.Plan {
+func planList(kinds []string, nmeta int, armedMuts []int, armedReads int, inPath string, inLen int, seed uint64) []simos.Plan {
 	r := sim.NewRng(seed)
 	var out []simos.Plan
 	for i, k := range kinds {
@@ -206,6 +206,10 @@ func planList(kinds []string, armedMuts []int, armedReads int, inPath string, in
 			p1.Partial = r.Range(0, 4000)
 		}
 		out = append(out, p1, simos.Plan{FailAt: at, Errno: "EIO"})
+	}
+	// every metadata operation (lstat, stat, fstat, open for reading) fails with EIO
+	for j := 1; j <= nmeta; j++ {
+		out = append(out, simos.Plan{FailMetaAt: j})
 	}
 	// simulated SIGINT at every mutating operation, with a few interleavings of
 	// the handler's two steps (remove the temporary file; exit 7) against main
@@ -252,6 +256,8 @@ func planName(p simos.Plan, kinds []string) string {
 		return "fail-" + kind(p.FailAt) + "-" + p.Errno
 	case p.ReadFail:
 		return "read-EIO"
+	case p.FailMetaAt > 0:
+		return "fail-metadata-op-EIO"
 	case p.SigAt > 0:
 		return fmt.Sprintf("sigint-at-%s", kind(p.SigAt))
 	case p.SigAtRead > 0:
@@ -480,7 +486,7 @@ func runC10(c *GCase, x *sim.Ctx) *sim.Violation {
 		return nil
 	}
 	inLen := len(j.orig)
-	plans := planList(kinds, wf.ArmedMuts, wf.ArmedReads, j.in, inLen, c.PartialSeed)
+	plans := planList(kinds, wf.NMeta, wf.ArmedMuts, wf.ArmedReads, j.in, inLen, c.PartialSeed)
 	for pi, p := range plans {
 		if c.HasOnly && pi != c.Only {
 			continue
@@ -526,7 +532,7 @@ func init() {
 			Engine:    "gxzsim",
 			Level:     "fault_enumeration",
 			Technique: "deterministic simulation of the gxz process on a simulated file system: the unmodified main() runs in-process over verif/sim/simos; every file-system mutation of a run is enumerated as kill point (before / after / mid-write) and as ENOSPC/EIO fault point, reads fail at seeded offsets; the data-loss invariant is evaluated on the simulated directory after every kill and every run",
-			Rule: "case = (initial directory: input valid/truncated (also several hundred KiB, longer than the decompressor's window)/damaged/not compressed, optional existing target, stale temp file, unrelated file; one invocation from {compress, decompress} x {xz, lzma} x subsets of {-k,-f,-c} x names with spaces / known / unknown suffix / .txz/.tlz); fault space per case = for each of the M mutating operations of the fault-free run: kill before, kill after, kill mid-write, fail ENOSPC (partial write), fail EIO, and simulated SIGINT with 5 main/handler interleavings; plus two read faults; " +
+			Rule: "case = (initial directory: input valid/truncated (also several hundred KiB, longer than the decompressor's window)/damaged/not compressed, optional existing target, stale temp file, unrelated file; one invocation from {compress, decompress} x {xz, lzma} x subsets of {-k,-f,-c} x names with spaces / known / unknown suffix / .txz/.tlz); fault space per case = for each of the M mutating operations of the fault-free run: kill before, kill after, kill mid-write, fail ENOSPC (partial write), fail EIO, and simulated SIGINT with 5 main/handler interleavings; plus every lstat/stat/fstat/open failing with EIO (no exit status demanded for those: the property lists write, close, rename, remove) and two read faults; " +
 				"non-trivial = every faulted run whose fault actually fired; distinct = (scenario digest, plan) pairs",
 			Gen:    genC10,
 			Run:    runC10,
